@@ -42,11 +42,15 @@ CHECKS = {
    text="Every I/O step inside every target operation of a generated history is failed once per error kind in a fresh deterministic re-execution; the failed operation must be invisible in the process, later transactions must be accepted, visible and durable, after reopen the failed transaction is wholly present or wholly absent, open succeeds and a further commit survives another reopen.", ref="§3 C08"),
  "C09": dict(cat="exploration", tech="deterministic simulation: seeded cooperative scheduler over real threads calling the C API auto-commit entry point",
    text="2-4 client threads issue read-modify-write increments, conditional creates (MERGE) and copy statements on shared nodes through ndb_execute_write under seeded schedules; final counters must equal the number of acknowledged increments and each merged key must exist exactly once.", ref="§3 C09"),
+ "C10": dict(cat="exploration", tech="deterministic simulation: two engine handles sharing only the simulated directory, seeded interleaving of their open/commit/compact/close actions",
+   text="PRNG-chosen interleavings of two handles on one path; a second open while the first handle is open must be refused (or wait); the replay of a violation closes both, reopens and reports lost acknowledged commits.", ref="§3 C10"),
  "C17": dict(cat="fault_enumeration", tech="deterministic simulation with fault injection: stored-byte faults on the log tail (every truncation offset, zero/random/length-field/oversize tails, unfinished transaction, bit flips) followed by write + reopen rounds",
    text="Every truncation offset inside the last transaction (and every stride-th of the rest of the tail region) plus appended garbage tails and bit flips; each mutated log is opened, dumped against the state after the last completely written transaction, written to again and reopened twice.", ref="§3 C17"),
  "C28": dict(cat="exploration", tech="deterministic simulation: model-based lifecycle histories (vacuum events) on the simulated disk",
    text="vacuum(path) on a closed database as a lifecycle event inside L1 histories, followed by open, dump, more writes, reopen, dump; vacuum must succeed and all dumps equal the model.", ref="§3 C28"),
 
+ "C29": dict(cat="exploration", tech="deterministic simulation: seeded cooperative scheduler (backup thread vs writer thread, backup file operations are scheduling points) + restore and model comparison",
+   text="nervusdb::backup runs concurrently with a generated writer history (and, separately, quiescently); the restored copy must open and equal one model state between the operations acknowledged before the backup began and those begun before it returned.", ref="§3 C29"),
  "C35": dict(cat="exploration", tech="deterministic simulation: seeded cooperative scheduler with exact all-threads-blocked detection, lock-order graph as evidence",
    text="2-5 threads with PRNG mixes of transactions, compaction, index creation, snapshot reads, index lookups, statistics reads, vector insertion/search and new-label creation; a violation is the exact deadlock condition (every unfinished thread parked on a lock) or no completion within the step cap; the observed lock-order graph with gate locks is reported in the evidence.", ref="§3 C35"),
 }
